@@ -115,6 +115,12 @@ class Equation:
         # If there are no input tensors, we need to iterRangeShapeRef on the
         # output
         if len(tensors) == 1 and output:
+            trank = output.peek_clean()
+            if trank != rank:
+                raise ValueError(
+                    "Cannot project into the output tensor. Replace " +
+                    rank + " with " + str(trank) + " in the loop order")
+
             iter_output = self.__make_output_only_iter_expr(rank)
             return self.__add_enumerate(rank, iter_output)
 
